@@ -3862,7 +3862,12 @@ func (r *Resolver) processDelegation(ctx context.Context, rs *resolveState, resp
 	// context is gone — an unbounded context.Background here
 	// used to leak goroutines and mutate authservers long
 	// after the query returned.
-	if r.cfg.IPv6Access {
+	// A detached walk starts from a fresh context, so the Queryer nesting
+	// counter restarts there. A delegation met by such a walk must not spawn
+	// another walk: every generation would again start from nesting 0, and an
+	// authority that keeps delegating new zones to nameservers without AAAA
+	// glue would keep one client query working for as long as it likes.
+	if r.cfg.IPv6Access && ctx.Value(contextKeyV6Walk) == nil {
 		reqid := requestIDFromContext(ctx)
 		work := rs.work
 		attemptGuard := middleware.ResolutionAttemptGuardFrom(ctx)
@@ -3925,6 +3930,7 @@ func (r *Resolver) processDelegation(ctx context.Context, rs *resolveState, resp
 					v6ctx = middleware.WithResolutionAttemptGuard(v6ctx, attemptGuard)
 				}
 				v6ctx = context.WithValue(v6ctx, contextKeyRequestID, reqid)
+				v6ctx = context.WithValue(v6ctx, contextKeyV6Walk, struct{}{})
 				r.lookupV6Nss(v6ctx, q, authservers, foundv6, nsInfo.hosts, cd)
 			}()
 		}
